@@ -21,7 +21,7 @@ LEVEL_TEXT = (
     "any retention growing with >= 0.5 % of the fed octets crosses the bound. The bound is a generic object-graph measure and does not "
     "name attributes. Sampling of patterns and sizes, not proof."
 )
-RUNS = {"quick": 204, "thorough": 816}
+RUNS = {"quick": 136, "thorough": 816}
 CHUNK = {"quick": 2, "thorough": 2}
 BUDGET_S = {"quick": 120, "thorough": 3000}
 SELFTEST_RUNS = 12
@@ -40,8 +40,8 @@ ASSUMPTIONS = [
 MUST_FIRE = {"quick": ["pattern_all_flags", "pattern_slash_no_lf", "pattern_ident_no_end", "pattern_never_ending_frame", "pattern_open_frame_then_flags", "pattern_open_frame_then_escapes", "pattern_flag_escape_alternating"], "thorough": ["pattern_all_flags", "pattern_slash_no_lf", "pattern_ident_no_end", "pattern_never_ending_frame"]}
 
 CONST = 64 * 1024
-HDLC_PATTERNS = ["all_flags", "flag_junk", "valid_frames", "never_ending_frame", "random", "random_ascii", "escape_flood", "flag_escape_alternating", "open_frame_then_flags", "open_frame_then_escapes", "open_frame_then_flag_escape"]
-P1_PATTERNS = ["ident_no_end", "slash_no_lf", "ident_endless_lines", "valid_readouts", "random", "random_ascii", "ident_lines_repeated"]
+HDLC_PATTERNS = ["all_flags", "flag_junk", "valid_frames", "never_ending_frame", "random", "random_ascii", "escape_flood", "flag_escape_alternating", "open_frame_then_flags", "open_frame_then_escapes", "open_frame_then_flag_escape", "valid_frames_single_flag", "invalid_frames_single_flag", "aborted_frames"]
+P1_PATTERNS = ["ident_no_end", "slash_no_lf", "ident_endless_lines", "valid_readouts", "random", "random_ascii", "ident_lines_repeated", "ident_endless_blank_lines", "ident_endless_lf", "lf_forever", "cr_forever", "ident_endless_bang_less_text"]
 CHUNKS = [1, 64, 1024, 65536]
 
 
@@ -73,6 +73,19 @@ def block(sc) -> bytes:
             o = hdlc_gen.build(it)
             out += b"\x7e" + (hdlc_ref.stuff(o) if stuffing else o) + b"\x7e"
         return bytes(out)
+    if p in ("valid_frames_single_flag", "invalid_frames_single_flag"):
+        out = bytearray()
+        for seq in range(40):
+            it = hdlc_gen.clean_frame(r, stuffing, bool(sc["cfg"][1]), seq=seq, small=True)
+            o = bytearray(hdlc_gen.build(it))
+            if p.startswith("invalid"):
+                o[-1] ^= 0x55
+                if not stuffing and 0x7E in o:
+                    continue
+            out += (hdlc_ref.stuff(bytes(o)) if stuffing else bytes(o)) + b"\x7e"  # the closing flag is the next opening flag
+        return bytes(out)
+    if p == "aborted_frames":
+        return (b"\x7e\xa0\x20\x03\x21\x13\x12\x34\x01\x02\x03\x7d") * 340
     if p == "never_ending_frame":
         return r.randbytes(8192).replace(b"\x7e", b"\x55")
     if p == "escape_flood":
@@ -93,6 +106,16 @@ def block(sc) -> bytes:
         return b"/ABC5xyz\r\n\r\n1-0:1.8.0(000123.456*kWh)\r\n" * 100
     if p == "ident_lines_repeated":
         return b"/ABC5xyz\r\n" * 400
+    if p == "ident_endless_blank_lines":
+        return b"\r\n" * 4096
+    if p == "ident_endless_lf":
+        return b"\n" * 8192
+    if p == "lf_forever":
+        return b"\n" * 8192
+    if p == "cr_forever":
+        return b"\r" * 8192
+    if p == "ident_endless_bang_less_text":
+        return bytes(r.choice(b" \t\r\n\x0b\x0cabc") for _ in range(8192))
     if p == "slash_no_lf":
         return b"/" + bytes(r.randrange(0x20, 0x7F) for _ in range(8000)).replace(b"/", b"_")
     if p == "ident_endless_lines":
@@ -111,8 +134,10 @@ def prefix(sc) -> bytes:
     if sc["pattern"].startswith("open_frame_then"):
         # an opened frame whose header is complete and whose length field (0x7FF) is never reached
         return b"\x7e\xa7\xff\x03\x21\x13\x12\x34\x01\x02"
-    if sc["pattern"] == "ident_endless_lines":
+    if sc["pattern"] in ("ident_endless_lines", "ident_endless_blank_lines", "ident_endless_lf", "ident_endless_bang_less_text"):
         return b"/ABC5xyz\r\n"
+    if sc["pattern"].endswith("frames_single_flag"):
+        return b"\x7e"
     return b""
 
 
